@@ -18,5 +18,5 @@ run() { # patch id
 }
 want="$*"
 for p in /verif/selftest/mutants/*.patch; do id=$(basename "$p" | cut -d_ -f1); case " $want " in "  "|*" $id "*) run "$p" "$id";; esac; done
-for d in /verif/seeded/C*/; do id=$(basename "$d"); case " $want " in "  "|*" $id "*) run "$d/patch.diff" "$id";; esac; done
+for d in /verif/seeded/C*/; do id=$(basename "$d" | cut -d_ -f1); case " $want " in "  "|*" $id "*) run "$d/patch.diff" "$id";; esac; done
 exit $fail
